@@ -2,7 +2,7 @@
 From Coq Require Extraction.
 From Coq Require Import ExtrOcamlBasic.
 From Coq Require Import ZArith QArith List.
-From RLV Require Import Model.Logger Model.Buffers Model.BufferRun Model.Persist Model.Num Model.PrioNum Model.Checkpointing Model.Tabular Model.Tensor Model.Blocks Model.Returns Model.Dual Model.Losses Model.Actor Model.Heads Model.Greedy Model.BlackBox Model.Ensemble Model.Loop Model.Target Model.Bounds Model.Frame Model.Bandit.
+From RLV Require Import Model.Logger Model.Buffers Model.BufferRun Model.Persist Model.Num Model.PrioNum Model.Checkpointing Model.Tabular Model.Tensor Model.Blocks Model.Returns Model.Dual Model.Losses Model.Actor Model.Heads Model.Greedy Model.BlackBox Model.Ensemble Model.Loop Model.Target Model.Bounds Model.Frame Model.Bandit Model.Collect.
 Extraction Language OCaml.
 Extraction "../build/ocaml/model.ml"
   (* base *) Nat.add Qred Qplus Qmult Qminus Qdiv Qopp Qle_bool Qeq_bool
@@ -22,4 +22,5 @@ Extraction "../build/ocaml/model.ml"
   (* Target / Bounds *) soft_update hard_update due_dqn_family due_every_update due_delayed due_epoch sample_action explore_pre target_noise sample_target_action cem_candidate
   (* Frame *) frame_check may_change sharing
   (* Bandit *) sel_run rr_run ducb_choose ducb_run dscore
+  (* Collect *) ppo_run a2c_run
   (* Persist *) rb_crash lap_crash sb_crash sbp_crash mtl_crash mtu_crash orbax_restore orbax_reload load_pickle save_pickle restore_checkpoint.
